@@ -6,6 +6,7 @@ import (
 	"strconv"
 	"strings"
 	"unsafe"
+	"verif/gen"
 
 	"github.com/openacid/low/size"
 
@@ -286,6 +287,42 @@ func c20Handwritten() c20Type {
 		1+8+(16+3)+(8+4)+(16+16+1)+(8+(16+1)+8+(16+2)+8)+(24+12), "all-unexported struct, filled")
 	add(&c20Unexp{a: 1}, 8+1+8+16+8+16+8+24, "pointer to unexported struct")
 	add([]interface{}{c20MyInt(1), nil, &i32, c20Emb{5}}, 24+(16+8)+16+(16+8+4)+(16+4), "[]interface{} of named values")
+	// LARGE containers: the length coordinate at every round-number threshold (an implementation may size
+	// long strings, slices, arrays and maps differently: chunks, 16-bit counters, sampling)
+	for _, n := range gen.ThresholdSizes(100, 70000) {
+		add(strings.Repeat("x", n), 16+n, fmt.Sprintf("string of %d bytes", n))
+		add(make([]byte, n), 24+n, fmt.Sprintf("[]byte of %d elements", n))
+		add(make([]int32, n), 24+4*n, fmt.Sprintf("[]int32 of %d elements", n))
+		add(make([]uint64, n), 24+8*n, fmt.Sprintf("[]uint64 of %d elements", n))
+	}
+	for _, n := range []int{255, 256, 257, 1000, 4096, 65535, 65536, 65537, 70000} {
+		ss := make([]string, n)
+		ps := make([]*int32, n)
+		hp := make([]c20HostPort, n)
+		m := make(map[int32]int8, n)
+		ms := make(map[string][]byte, n)
+		total, totalMS := 0, 0
+		for i := range ss {
+			ss[i] = strings.Repeat("y", i%7)
+			total += 16 + i%7
+			if i%3 == 0 {
+				ps[i] = new(int32)
+			}
+			hp[i] = c20HostPort{ss[i], int32(i)}
+			m[int32(i)] = 1
+			k := fmt.Sprintf("k%06d", i)
+			ms[k] = make([]byte, i%5)
+			totalMS += (16 + 7) + (24 + i%5)
+		}
+		add(ss, 24+total, fmt.Sprintf("[]string of %d strings of 0..6 bytes", n))
+		add(ps, 24+8*n+4*((n+2)/3), fmt.Sprintf("[]*int32 of %d pointers, every third non-nil", n))
+		add(hp, 24+total+4*n, fmt.Sprintf("[]struct{Host string; Port int32} of %d elements", n))
+		add(m, 8+5*n, fmt.Sprintf("map[int32]int8 of %d entries", n))
+		add(ms, 8+totalMS, fmt.Sprintf("map[string][]byte of %d entries", n))
+	}
+	add([65537]int8{}, 65537, "[65537]int8")
+	add(&[70000]int16{}, 8+140000, "*[70000]int16")
+	add([300]string{}, 300*16, "[300]string of empty strings")
 	// embedded structs and blank fields
 	add(c20Shadow{c20Base{"abc", 7}, "xy"}, (16+3)+4+(16+2), "embedded struct whose field Name is hidden by an outer field Name")
 	add(c20Both{c20Left{1, 2}, c20Right{3, 4}, 5}, (1+4)+(8+1)+1, "two embedded structs with the same field name Tag (ambiguous selector)")
